@@ -30,6 +30,12 @@ func c18() []*Ob {
 		return false
 	}
 	return []*Ob{
+		{Prop: "C18", ID: "C18.7", Engine: "PAIR(two sites)", Floor: 1,
+			Desc:  "a cleaning pass can always get under the limit: markStale retires the last generation whenever the older ones did not free enough, or — if it spares a last generation below maxGenSize — maxGenSize is a plain fraction of the limit (no floor), so a spared generation cannot hold the cache over it",
+			Check: func(c *Ctx) { cleaningReachesLastGeneration(c) }},
+		{Prop: "C18", ID: "C18.8", Engine: "PAIR(two sites)", Floor: 1,
+			Desc:  "an entry evicted while loading adds nothing to the accounted size: Cache.Cleanup marks every entry it removes as deleted (save then stores size 0), or save accounts to the entry's own generation (which the cleaner has dropped) and does not move the entry into the current one first",
+			Check: func(c *Ctx) { evictedLoadNotAccounted(c) }},
 		{Prop: "C18", ID: "C18.6", Engine: "LOCK(publish)", Floor: 2,
 			Desc: "a bucket learns its generation under the cleaner's lock: every call of bucket.SetGeneration in the Cleaner (AddBucket for a new cache, rotate for all of them) is made while Cleaner.mu is held exclusively — AddBucket reading lastGen under the lock and applying it after the unlock lets a rotation slip in between, the older generation then overwrites the newer one in the new cache, and its bytes are accounted to a generation that is dropped as stale: the cleaner sees nothing to clean while the cache grows past the limit",
 			Check: func(c *Ctx) {
